@@ -127,6 +127,11 @@ func run(e *core.Env) {
 		}
 	}
 	e.Ev("drained", uint64(totalSteps), uint64(len(insts)))
+	for u := 0; u < n; u++ {
+		for _, en := range ms.Nodes[u].Router.Table().VerifEntries() {
+			e.Ev("rt", uint64(u), uint64(ms.ByIP[en.DstIP]), uint64(ms.ByIP[en.NextHop]), uint64(en.Path.TotalHops))
+		}
+	}
 	for name, in := range insts {
 		bound := mesh.CountSimplePaths(ms.Adj, in.origin, 1<<20)
 		if in.crossings > bound {
